@@ -173,6 +173,10 @@ func applyTarget(target []byte, st *state.State, ca cache.Memory, ctx context.Co
 		return location, idx, nil
 	default:
 		sym = string(target)
+		if st.Depth()+1 >= state.MaxLevel {
+			// State.Down panics beyond the limit; a client must not be able to get there
+			return sym, idx, fmt.Errorf("max levels exceeded (%d)", state.MaxLevel)
+		}
 		err := st.Down(sym)
 		if err != nil {
 			return sym, idx, err
